@@ -93,6 +93,16 @@ def run_session(pcfg, save_config, save_filename, load=False, limit=None, quit_a
     pcfg.omen_exit = False
     real_threading = cs.threading
     cs.threading = types.SimpleNamespace(Thread=FakeThread, main_thread=threading.main_thread)
+    popped = []
+    real_queue = cs.PcfgQueue
+
+    class RecQueue(real_queue):
+        def next(self):
+            it = real_queue.next(self)
+            if it is not None:
+                popped.append(it)
+            return it
+    cs.PcfgQueue = RecQueue
     sess = cs.CrackingSession(pcfg, save_config, save_filename)
     orig_create = pcfg.create_guesses
 
@@ -107,9 +117,10 @@ def run_session(pcfg, save_config, save_filename, load=False, limit=None, quit_a
             sess.run(load_session=load, limit=limit)
     finally:
         cs.threading = real_threading
+        cs.PcfgQueue = real_queue
         pcfg.create_guesses = orig_create
     return {'lines': lines, 'events': events, 'stderr': err.getvalue(), 'stdout_noise': out.getvalue(),
-            'session': sess, 'quit': ctl.quit}
+            'session': sess, 'quit': ctl.quit, 'popped': popped}
 
 
 def load_save(save_filename):
